@@ -94,7 +94,7 @@ PROPS["C20"] = dict(
 )
 
 PROPS["C12"] = dict(
-    modules=["contracts.sched_sql", "contracts.C12_limits", "contracts.C10_meta", "contracts.C09_setters"],
+    modules=["contracts.sched_sql", "contracts.C12_limits", "contracts.C10_meta", "contracts.C09_setters", "contracts.C11_need"],
     decided=["a step is moved to RUNNING only if it is safe (including holds) and every required resource is defined and "
              "not over-committed by RUNNING steps (SQL, exact)", "the invariant used <= available is preserved by the "
              "dispatch transaction", "job_loop starts a job only below the job limit", "hold/release counter contracts",
@@ -157,7 +157,7 @@ PROPS["C03"] = dict(
 )
 
 PROPS["C08"] = dict(
-    modules=["contracts.C06_clean", "contracts.C03_inputs", "contracts.C08_claims", "contracts.C08_bounded"],
+    modules=["contracts.C06_clean", "contracts.C03_inputs", "contracts.C08_claims", "contracts.C20_paths", "contracts.C08_bounded"],
     decided=["the claim lookup (_existing_claim) and the guard (_check_declaration) are exact against the stored tables: "
              "new iff no attached file node has the label, no-op iff the same creator holds it in the same role, rejected "
              "for every other claim", "_raise_if_step_exists rejects exactly an attached step with the label",
